@@ -23,6 +23,18 @@ def gen_case(rng):
     c = gen.dm_case(rng, nmax=7, mmax=5, nmin=2, mmin=1, positive=positive,
                     modes=("dyadic", "int", "tiny123") if positive else ("dyadic", "int", "tiny012"), big=0.0,
                     int_dtypes=0.5)
+    if rng.random() < 0.012:
+        # hundreds of alternatives (more than any internal batch of 128 / 256 / 512 rows); preferences only, the
+        # pairwise dominance tables of the accessor and of the model are not computed for these
+        n = rng.choice([130, 257, 513, 600, 1025])
+        m = len(c["weights"])
+        c["matrix"] = gen.values(rng, n, m, "dyadic" if rng.random() < 0.5 else "int", positive=positive)
+        if positive:
+            c["matrix"] = [[abs(x) if x != 0 else 1.0 for x in r] for r in c["matrix"]]
+        c["alternatives"] = [f"V{i}" for i in range(n)]
+        c.pop("dtypes", None)
+        c["vast"] = True
+        c["tags"] = ["vast"]
     steps, pos = [], positive
     for _ in range(rng.randint(1, 4)):
         name = rng.choice(ANY + (POS if pos else []))
@@ -47,7 +59,15 @@ def gen_case(rng):
 def signs(objs, mtx):
     m = np.asarray(mtx, dtype=float)
     d = m[:, None, :] - m[None, :, :]
-    return (np.sign(d) * np.asarray(objs)[None, None, :]).astype(int).tolist()
+    return (np.sign(d) * np.asarray(objs)[None, None, :]).astype(np.int8)
+
+
+def first_sign_change(b, a):
+    w = np.argwhere(b != a)
+    if len(w) == 0:
+        return None
+    x, y, j = (int(v) for v in w[0])
+    return x, y, j, int(b[x, y, j]), int(a[x, y, j])
 
 
 def run_impl(case):
@@ -55,17 +75,19 @@ def run_impl(case):
         from skcriteria.pipeline import mkpipe
         I.set_salt(case.get("matrix"))
         dm = I.mk(case)
-        before = {"signs": signs(case["objectives"], case["matrix"]),
-                  "dom0": dm.dominance.dominance(strict=False).to_numpy().tolist(),
-                  "dom1": dm.dominance.dominance(strict=True).to_numpy().tolist()}
+        vast = bool(case.get("vast"))
+
+        def dom(d, strict):
+            return [] if vast else d.dominance.dominance(strict=strict).to_numpy().tolist()
+        sb = signs(case["objectives"], case["matrix"])
+        before = {"dom0": dom(dm, False), "dom1": dom(dm, True)}
         cur = dm
         objs_hist = [[int(o) for o in cur.iobjectives.to_numpy()]]
         for cfg in case["steps"]:
             cur = T.build(cfg).transform(cur)
             objs_hist.append([int(o) for o in cur.iobjectives.to_numpy()])
-        after = {"signs": signs(objs_hist[-1], cur.matrix.to_numpy()),
-                 "dom0": cur.dominance.dominance(strict=False).to_numpy().tolist(),
-                 "dom1": cur.dominance.dominance(strict=True).to_numpy().tolist(),
+        after = {"sign_change": first_sign_change(sb, signs(objs_hist[-1], cur.matrix.to_numpy())),
+                 "dom0": dom(cur, False), "dom1": dom(cur, True),
                  "matrix": cur.matrix.to_numpy().tolist(), "objectives": objs_hist[-1]}
         # the same steps as one pipeline (a pipeline needs a decision maker at the end: use its transform())
         from skcriteria.agg.simple import WeightedSumModel
@@ -80,14 +102,10 @@ def run_impl(case):
 
 def oracle(case, o):
     b, a = o["before"], o["after"]
-    if b["signs"] != a["signs"]:
-        n, m = len(case["matrix"]), len(case["weights"])
-        for x in range(n):
-            for y in range(n):
-                for j in range(m):
-                    if b["signs"][x][y][j] != a["signs"][x][y][j]:
-                        return (f"criterion {j}: preference between alternatives {x},{y} was {b['signs'][x][y][j]} "
-                                f"and is {a['signs'][x][y][j]} after {[s['cls'] for s in case['steps']]}")
+    if a["sign_change"]:
+        x, y, j, was, now = a["sign_change"]
+        return (f"criterion {j}: preference between alternatives {x},{y} was {was} "
+                f"and is {now} after {[s['cls'] for s in case['steps']]}")
     if b["dom0"] != a["dom0"]:
         return "dominance relation changed"
     if b["dom1"] != a["dom1"]:
@@ -102,7 +120,12 @@ def run(ctx):
     ctx.rule = RULE
     cases = [gen_case(ctx.rng) for _ in range(ctx.n(450, 8000))]
     outs = I.pmap(run_impl, cases)
-    mods = ctx.model.batch([("dominance", ([o == 1 for o in c["objectives"]], c["matrix"])) for c in cases])
+    small = [i for i, c in enumerate(cases) if not c.get("vast")]
+    got = ctx.model.batch([("dominance", ([o == 1 for o in cases[i]["objectives"]], cases[i]["matrix"]))
+                           for i in small])
+    mods = [None] * len(cases)
+    for i, g in zip(small, got):
+        mods[i] = g
     for c, o, mo in zip(cases, outs, mods):
         for s in c["steps"]:
             ctx.count("step:" + s["cls"])
@@ -117,6 +140,9 @@ def run(ctx):
         msg = oracle(c, o)
         if msg:
             ctx.oracle_fail(c, {"oracle": msg})
+        if c.get("vast"):
+            ctx.count("alternatives>=130")
+            continue
         if o["after"]["dom0"] != mo[2] or o["after"]["dom1"] != mo[3]:
             ctx.disagree(c, {"what": "dominance after the steps differs from the model's dominance of the original",
                              "impl": [o["after"]["dom0"], o["after"]["dom1"]], "model": [mo[2], mo[3]]})
